@@ -153,7 +153,7 @@ class Env(object):
                 if 'server_default' in col:
                     kw['server_default'] = col['server_default']
                 column = sa.Column(*args, **kw)
-                attrs[col.get('attr', col['name'])] = column
+                attrs[col.get('attr', col['name'])] = sa.orm.deferred(column) if col.get('deferred') else column
                 if col.get('discriminator'):
                     margs['polymorphic_on'] = column
             if c.get('polymorphic_identity') is not None:
@@ -413,6 +413,19 @@ def shape_m2m(opts=None, plugins=(), self_ref=False):
             col('id', 'int', pk=True), col('name', 'str')], 'rels': []},
     ]
     assoc = [{'name': 'article_tag', 'cols': [['article_id', 'article.id'], ['tag_id', 'tag.id']], 'pk': True}]
+    return {'classes': classes, 'assoc': assoc, 'options': dict(opts or {}), 'plugins': list(plugins)}
+
+
+def shape_m2m_self(opts=None, plugins=()):
+    """self-referential many-to-many: Article.related <-> Article.related_from through article_link(left_id, right_id)"""
+    classes = [
+        {'name': 'Article', 'table': 'article', 'versioned': {}, 'columns': [
+            col('id', 'int', pk=True), col('name', 'str')],
+         'rels': [{'name': 'related', 'target': 'Article', 'kind': 'm2m', 'secondary': 'article_link',
+                   'primaryjoin': 'Article.id == article_link.c.left_id',
+                   'secondaryjoin': 'Article.id == article_link.c.right_id', 'backref': 'related_from'}]},
+    ]
+    assoc = [{'name': 'article_link', 'cols': [['left_id', 'article.id'], ['right_id', 'article.id']], 'pk': True}]
     return {'classes': classes, 'assoc': assoc, 'options': dict(opts or {}), 'plugins': list(plugins)}
 
 
